@@ -54,7 +54,7 @@ CHECKS = {
     ref='4/C11', note=SRV_NOTE),
  'C12': dict(
     technique='TLA+ SioServer.tla (hostile config: RxRaw classes, foreign/absurd ids, stray attachments) + exhaustive graph validation on both servers',
-    text='C12_Isolation is an invariant over EVERY frame action of the offender transport in EVERY reachable state: nothing is sent to another transport, no handler runs with another client\'s sid, the bystanders\' view (rooms, callbacks, sessions, binary buffers, environ, pending) is unchanged, undecodable/ill-typed frames (classified by the reference reading of the frame) reach no handler and change nothing. 23 concrete malformed frames + well-formed hostile traffic (bystanders\' ack ids, absurd ids, attachment counts 0 / 10^9, stray attachments, unknown namespaces) interleaved with bystander traffic; bystander actions after any offender prefix are ordinary validated edges.',
+    text='C12_Isolation is an invariant over EVERY frame action of the offender transport in EVERY reachable state: nothing is sent to another transport, no handler runs with another client\'s sid, the bystanders\' view (rooms, callbacks, sessions, binary buffers, environ, pending) is unchanged, undecodable/ill-typed frames (classified by the reference reading of the frame) reach no handler and change nothing. 23 concrete malformed text frames (and 19 for a server using the msgpack serializer: invalid msgpack, non-dict values, missing / ill-typed fields, packets claiming to be binary) + well-formed hostile traffic (bystanders\' ack ids, absurd ids, attachment counts 0 / 10^9, stray attachments, unknown namespaces) interleaved with bystander traffic; bystander actions after any offender prefix are ordinary validated edges.',
     ref='4/C12', note=SRV_NOTE + ' The resource clause (allocation proportional to declared counts) is covered only structurally: the buffer holds received attachments only (binbuf.atts grows by one per received frame).'),
  'C13': dict(
     technique='TLA+ Dispatch.tla: documented precedence vs transcribed resolvers on the full lattice (TLC), every lattice point replayed on the four real classes and judged by TLC (DispatchCases.tla)',
@@ -65,17 +65,17 @@ CHECKS = {
     text='All 4 namespace classes x helper methods x all subsets of optional parameters x {positional, keyword} x {truthy, falsy-but-meaningful values}: the real helper is called on a namespace bound to a recording stub carrying the real target signatures (read from the working tree); TLC computes the expected explicit call from the rule in NsForward.tla and checks coverage of the lattice.',
     ref='4/C17', note='Trusted: TLC, inspect.signature. Defaults of omitted optionals other than namespace are outside the claim, as the property says.'),
  'C19': dict(
-    technique='TLA+ SimpleClient.tla (threads with program counters at the Event/buffer operations) model-checked by TLC + exhaustive schedule exploration of the real SimpleClient under a baton scheduler, every step re-executed by TLC (SimpleClientGraph.tla)',
-    text='The instance\'s connected_event, input_event and input_buffer are replaced by objects that park the thread before each operation; real threads, one runs at a time; every schedule of {application receive()/emit() calls, handler thread arrivals, connection drop / reconnect / final end / give-up} is explored by state (a few hundred abstract states per configuration) and each step is validated against the spec (whole projected state: pcs, buffer, flags, results). Invariants: returned ++ buffer = arrived (order, exactly once, nothing overtaken), DisconnectedError only after the final end, emit waits out a reconnection, no error while an event is available (known finding D9 modelled; the design without it is model-checked).',
-    ref='4/C19', note='Trusted: TLC, FakeEio, the baton scheduler (pre-emption at Event/buffer operations, the granularity the property names). AsyncSimpleClient is not yet explored (see DESIGN.md).'),
+    technique='TLA+ SimpleClient.tla (threads with program counters at the Event/buffer operations; asyncio variant with atomic segments and latched wake-ups) model-checked by TLC + exhaustive schedule exploration of the real SimpleClient (baton scheduler, real threads) and AsyncSimpleClient (gate scheduler, virtual-time loop), every step re-executed by TLC (SimpleClientGraph.tla)',
+    text='The instance\'s connected_event, input_event and input_buffer are replaced by objects that park the thread before each operation; real threads, one runs at a time; every schedule of {application receive()/emit() calls, handler thread arrivals, connection drop / reconnect / final end / give-up} is explored by state (a few hundred abstract states per configuration) and each step is validated against the spec (whole projected state: pcs, buffer, flags, results). Invariants: returned ++ buffer = arrived (order, exactly once, nothing overtaken), DisconnectedError only after the final end, emit waits out a reconnection, no error while an event is available (known finding D9 modelled; the design without it is model-checked). AsyncSimpleClient: the same module with Atomic = TRUE (a task runs until it awaits a clear event, the handler is atomic, set() latches the waiter\'s wake-up); the real AsyncSimpleClient runs on a virtual-time loop, its two asyncio.Event objects are subclasses that park a woken waiter on a gate, the reconnection back-off is a gate too, and every await-point interleaving of application task, arrivals and connection events is explored and validated step by step.',
+    ref='4/C19', note='Trusted: TLC, FakeEio, the baton scheduler (pre-emption at Event/buffer operations, the granularity the property names) and the asyncio gate scheduler (every order in which ready tasks may run: a superset of the event loop\'s FIFO order).'),
  'C20': dict(
     technique='TLA+ SrvDisconnectThreads.tla (one pc per thread, labels = manager / transport / handler / environ accesses) model-checked by TLC + exhaustive schedule exploration of the real threaded Server under the baton scheduler, each step re-executed by TLC',
     text='2-3 real threads run {Server.disconnect(), client DISCONNECT, transport loss, disconnect of the other namespace} on one client; the instance\'s manager methods, eio.send, the disconnect handler and the environ table park the thread before each access; every schedule is explored by abstract state and validated step by step against the spec (membership, pending list, handler runs, packets, thread-local values, results). Invariants: handler exactly once, no thread raises, clean afterwards. The check-then-mark window of the code is the named deviation D7 (known finding); the design with an atomic gate satisfies all invariants (model-checked).',
     ref='4/C20', note='Trusted: TLC, the baton scheduler (pre-emption at the accesses the property names, not per bytecode), real engine.io sockets.'),
  'C14': dict(
     technique='two adapters, one TLA+ specification: the threaded and the asyncio class are each explored exhaustively and validated edge by edge by TLC against the SAME module (SioServer.tla, SioClient.tla) with equal state counts; plus a direct comparison of the two implementation graphs',
-    text='For every configuration the real Server and AsyncServer (Client and AsyncClient) are driven through every alphabet action (client frames valid and malformed, API calls, transport losses) from every reachable abstract state, background handlers joined; both graphs must be the specification\'s graph (G2+G3), and the two recorded graphs (states, packets per peer, handler and callback invocations, results/exceptions, after renaming session ids by order of appearance) must be identical to each other. Managers are covered through the servers, namespaces through C13/C17 cases on all four classes; SimpleClient/AsyncSimpleClient and the pub/sub managers are covered where their own checks (C19, C07) run both classes.',
-    ref='4/C14', note=SRV_NOTE + ' AsyncSimpleClient and AsyncPubSubManager pairs are not part of this check yet.'),
+    text='For every configuration the real Server and AsyncServer (Client and AsyncClient) are driven through every alphabet action (client frames valid and malformed, API calls, transport losses) from every reachable abstract state, background handlers joined; both graphs must be the specification\'s graph (G2+G3), and the two recorded graphs (states, packets per peer, handler and callback invocations, results/exceptions, after renaming session ids by order of appearance) must be identical to each other. Managers are covered through the servers, namespaces through C13/C17 cases on all four classes; The pub/sub managers are part of this check too (clusters of Server+PubSubManager and of AsyncServer+AsyncPubSubManager explored on the same alphabets, including junk on the channel and every message encoding, both validated against PubSub.tla and compared with each other); also with the msgpack serializer in the thorough tier. SimpleClient/AsyncSimpleClient are decided by C19 (one module, thread-grain vs await-grain).',
+    ref='4/C14', note=SRV_NOTE),
  'C07': dict(
     technique='TLA+ PubSub.tla (N SioServer cores + ordered channel with per-host cursors, reference single server as a ghost) model-checked by TLC; exhaustive transition-graph validation of clusters of real Server+PubSubManager and AsyncServer+AsyncPubSubManager joined by an in-memory channel',
     text='G1: TLC checks on every interleaving of operations with per-host consumption of the FIFO channel: C07_Deliveries (per in-flight emit: at most once per client, only to clients addressed at some point while in flight, exactly the addressed set when no membership change raced it, never on the issuing host by consumption), C07_SingleServerEquivalence (immediate delivery: at every quiet point memberships equal those of ONE SioServer holding all clients, and the packets/handler runs of each operation equal the single server\'s), C07_OwnerHoldsClient, C07_CallbackOnOrigin (application callback only on the issuing host, with the acknowledging client\'s arguments; the relay partial and callback messages modelled as in the code). G2: two real servers per cluster with the library\'s own listener loop running in a thread/task, stepped one message at a time; every action (client frames on either host, emit/enter/leave/close/disconnect via either host or the write-only manager, client ACKs, one listener turn) from every reachable cluster state is re-executed by TLC: per-host manager state, channel contents (unpickled published messages), cursors, packets per client, handler and callback invocations. G3: state counts equal.',
